@@ -218,7 +218,9 @@ class MatchInfo(BaseInfoLine):
         value = instance.Value
 
         if attr == "subtitle" and isinstance(value, list):
-            value = "" if len(value) == 0 else str(value)
+            # "-" is the placeholder the exporter writes for missing header values;
+            # an empty value cannot be written (the info pattern needs one character)
+            value = "-" if len(value) == 0 else str(value)
         return cls(
             version=version,
             attribute=attr,
